@@ -15,7 +15,7 @@ EXPLANATION = (
     "and before the read/copy. C06.R3: ownership hand-over of appended slices: the fallible reserve precedes the copy, "
     "take_owned_slice() post-dominates the copy on normal paths and no user code runs in between. C06.R4: owners drop "
     "their pointee: Drop of BumpBox, the IntoIter types, MutBumpVecRev, BumpVec, BumpBoxSliceInitializer reaches "
-    "drop_in_place on its own buffer. Not decided: exact counts, leaks explicitly allowed, panics thrown by Drop.")
+    "drop_in_place on its own buffer. Not decided: exact counts, leaks explicitly allowed, panics thrown by Drop. C06.R11: dedup_by advances gap.read between predicate and drop of the duplicate, and compares with the last retained slot.")
 
 COLL_FILES = re.compile(r"src/(bump_box|fixed_bump_vec|bump_vec|mut_bump_vec|mut_bump_vec_rev|owned_slice|set_len_on_drop|"
                         r"bump_string|mut_bump_string|fixed_bump_string|owned_str|destructure|polyfill)")
